@@ -1,5 +1,5 @@
 # replay of a bounded stand-in violation (C16): re-run native/c16_states.py
 import sys
-print('n=2 pure=True gaussian: photon statistics of mode 1 differ between fock [0.966, 0.0008, 0.0315, 0.0001] and gaussian [0.8317, 0.1518, 0.0046, 0.011]')
+print('n=2 pure=False cat: quad_expectation(1,0.0) = [0.52073, 0.74787] on bosonic, [0.52073, 1.89214] on fock')
 print('REPLAY-VIOLATION')
 sys.exit(1)
